@@ -105,6 +105,8 @@ def main():
                     if f[3] == 'PANIC' or unhex(f[3]) != d: pr.append('decode() = %s' % f[3])
                     if f[4] != '1': pr.append('== with its own text is %s' % f[4])
                     if f[5] != '1': pr.append('== with itself is %s' % f[5])
+                if len(f) > 6 and f[6] != '~' and f[6] != hexs(v):
+                    pr.append('the owned route into_pct_string() %s' % ('panicked' if f[6] == 'PANIC' else 'changed the text to %r' % unhex(f[6])))
                 mo = mod[line]
                 if mo != f[0]:
                     diffs += 1
